@@ -217,6 +217,13 @@ func materialise(o *c09Obj) (*sharedObj, string) {
 				return callResult{Toks: cloneToks(toks), Err: errStr(err)}
 			case "ebnf-string":
 				return callResult{Text: fx.EBNF()}
+			case "sub-parse":
+				// a parser derived for an inner production shares the grammar's parser
+				if fx.Sub == nil {
+					return callResult{}
+				}
+				ast, err := fx.Sub()
+				return callResult{AST: ast, Err: errStr(err)}
 			case "string-trailing":
 				ast, err := fx.Parse("string", "f", []byte(in), participle.AllowTrailing(true))
 				return callResult{AST: ast, Err: errStr(err)}
@@ -439,9 +446,21 @@ func TestC09(t *testing.T) {
 			case k == 6:
 				o.Kind = "ebnf"
 				o.Inputs = c09EBNFInputs
-			case k == 7 && len(fxs) > 0:
+			case (k == 7 || k == 8) && len(fxs) > 0:
 				o.Kind = "fixture"
 				f := fxs[rapid.IntRange(0, len(fxs)-1).Draw(t, "fixture")]
+				if rapid.Bool().Draw(t, "withsub") {
+					// prefer a fixture that also has a parser derived for an inner production
+					var subs []*fixtures.Fixture
+					for _, x := range fxs {
+						if x.Sub != nil {
+							subs = append(subs, x)
+						}
+					}
+					if len(subs) > 0 {
+						f = subs[rapid.IntRange(0, len(subs)-1).Draw(t, "subfixture")]
+					}
+				}
 				o.Fixture = f.Name
 				o.Inputs = append(o.Inputs, f.Samples...)
 				o.Inputs = append(o.Inputs, f.Samples[0][:len(f.Samples[0])/2])
@@ -462,7 +481,7 @@ func TestC09(t *testing.T) {
 			case "ebnf":
 				return []string{"string"}
 			case "fixture":
-				return []string{"string", "bytes", "reader", "lex", "ebnf-string", "string-trailing", "string-trace"}
+				return []string{"string", "bytes", "reader", "lex", "ebnf-string", "string-trailing", "string-trace", "sub-parse", "ebnf-string"}
 			}
 			return []string{"string", "string", "bytes", "reader", "lex", "ebnf-string", "string-trailing", "string-trace"}
 		}
